@@ -267,7 +267,8 @@ SEQS = [('store_file', 'find'), ('find', 'store_file'), ('store_file', 'store_me
              'concrete data bytes each (distinct per message), maximum length 58, each message delivered all in one P-DATA-TF, one fragment per '
              'PDU, or split after the first / before the last fragment (symbolic selectors); every message must be indicated exactly when its last fragment arrives, with '
              'its own type, context, command set and data; the application may have closed an earlier file (symbolic)',
-      family={'seq': list(range(len(SEQS))), 'sta7': [0, 1]}, timeout=300)
+      family=lambda t: [dict(seq=q, sta7=z) for q in range(len(SEQS)) for z in (0, 1)
+                        if t == 'thorough' or (q + z) % 2 == 0], timeout=300)
 def message_sequence(mid: int, g1: int, g2: int, closed: bool) -> bool:
     """
     pre: 0 <= mid <= 65000 and 0 <= g1 <= 3 and 0 <= g2 <= 3
